@@ -44,6 +44,7 @@ fn pair(credit: u32) -> (MuxStream, EstablishedStreamData) {
         finish_sent: finish_sent.clone(),
         psh_send_remaining: psh_send_remaining.clone(),
         writer_waker: writer_waker.clone(),
+        push_received: crate::loom::AtomicBool::new(false),
     };
     let stream = MuxStream {
         rx_frame_rx,
